@@ -235,6 +235,7 @@ type hsSecrets struct {
 	A           *big.Int
 	DhPrime     *big.Int
 	ServerTime  int32
+	TimeRel     bool     // ServerTime is not a date but what this server's clock differs by from the harness' clock (seconds): server_time = now + ServerTime at the moment it is announced (conformant mode only)
 	Pad         []byte   // 16 bytes; the answer's padding is a prefix of it
 	Minimal     bool     // send dh_prime / g_a without leading zero bytes instead of as 256 bytes
 	ExtraFps    []uint64 // further fingerprints offered in front of the right one
@@ -504,6 +505,11 @@ type hsSrvResult struct {
 	Salt     int64
 	HashSent []byte
 	Done     bool // conformant mode: dh_gen_ok was sent
+	// the server's clock: the server_time it announced in server_DH_inner_data and when it did (conformant mode),
+	// and when each encrypted frame arrived — its clock at that moment is TimeSent + (EncAt[i] - TimeAt)
+	TimeSent int32
+	TimeAt   time.Time
+	EncAt    []time.Time
 }
 
 type hsServer struct {
@@ -628,6 +634,7 @@ func (s *hsServer) serve(c net.Conn, res *hsSrvResult, sec *hsSecrets, replies [
 		if len(pkt) >= 8 && binary.LittleEndian.Uint64(pkt) != 0 {
 			s.mu.Lock()
 			res.Enc = append(res.Enc, pkt)
+			res.EncAt = append(res.EncAt, time.Now())
 			s.mu.Unlock()
 			select {
 			case seen <- struct{}{}:
@@ -660,6 +667,7 @@ func (s *hsServer) serve(c net.Conn, res *hsSrvResult, sec *hsSecrets, replies [
 			res.Reject = why
 		}
 		res.AuthKey, res.Salt, res.HashSent, res.Done = st.authKey, st.salt, st.hashSent, st.done
+		res.TimeSent, res.TimeAt = st.timeSent, st.timeAt
 		s.mu.Unlock()
 		if reply != nil {
 			s.sendPlain(c, reply)
@@ -677,6 +685,8 @@ type hsConv struct {
 	salt     int64
 	hashSent []byte
 	done     bool
+	timeSent int32     // the server_time announced
+	timeAt   time.Time // … and when
 }
 
 // handle: one request body in, the reply body out (nil + reason when the request is refused; a
@@ -738,7 +748,11 @@ func (cv *hsConv) handle(body []byte) ([]byte, string) {
 		}
 		cv.newNonce = append([]byte{}, inew...)
 		cv.stage = 2
-		answer := hsInnerData(cv.nonce, s.ServerNonce, s.G, hsIntBytes(s.DhPrime, s.Minimal), hsIntBytes(s.gA(), s.Minimal), s.ServerTime)
+		cv.timeSent, cv.timeAt = s.ServerTime, time.Now()
+		if s.TimeRel {
+			cv.timeSent = int32(cv.timeAt.Unix() + int64(s.ServerTime))
+		}
+		answer := hsInnerData(cv.nonce, s.ServerNonce, s.G, hsIntBytes(s.DhPrime, s.Minimal), hsIntBytes(s.gA(), s.Minimal), cv.timeSent)
 		return hsDHOk(cv.nonce, s.ServerNonce, hsWrapAnswer(answer, hsSha1(answer), s.Pad, cv.newNonce, s.ServerNonce)), ""
 	case cv.stage == 2 && id == hsIDSetClientDH:
 		nonce, sn, enc := rd.take(16), rd.take(16), rd.str()
@@ -793,14 +807,20 @@ func (cv *hsConv) handle(body []byte) ([]byte, string) {
 // hsOpenClientFrame: server side of the MTProto 1.0 envelope (x = 0): auth_key_id, msg_key, IGE.
 // Returns the inner (salt, session, msg_id, seq_no, body) or why the frame is refused.
 func hsOpenClientFrame(authKey, pkt []byte) (salt int64, body []byte, why string) {
+	salt, _, body, why = hsOpenClientFrameID(authKey, pkt)
+	return salt, body, why
+}
+
+// hsOpenClientFrameID: the same, with the msg_id of the message inside.
+func hsOpenClientFrameID(authKey, pkt []byte) (salt int64, msgID uint64, body []byte, why string) {
 	if len(authKey) != 256 {
-		return 0, nil, fmt.Sprintf("server auth key has %d bytes", len(authKey))
+		return 0, 0, nil, fmt.Sprintf("server auth key has %d bytes", len(authKey))
 	}
 	if len(pkt) < 24+32 || (len(pkt)-24)%16 != 0 {
-		return 0, nil, fmt.Sprintf("encrypted frame of %d bytes", len(pkt))
+		return 0, 0, nil, fmt.Sprintf("encrypted frame of %d bytes", len(pkt))
 	}
 	if !bytes.Equal(pkt[:8], hsSha1(authKey)[12:20]) {
-		return 0, nil, "auth_key_id is not SHA1(auth_key)[12:20] of the server's key"
+		return 0, 0, nil, "auth_key_id is not SHA1(auth_key)[12:20] of the server's key"
 	}
 	mk := pkt[8:24]
 	a := hsSha1(mk, authKey[0:32])
@@ -812,12 +832,12 @@ func hsOpenClientFrame(authKey, pkt []byte) (salt int64, body []byte, why string
 	pt := hsIGE(key, iv, pkt[24:], false)
 	l := int(int32(binary.LittleEndian.Uint32(pt[28:32])))
 	if l < 0 || 32+l > len(pt) || len(pt)-32-l > 15 {
-		return 0, nil, fmt.Sprintf("inner length %d of %d decrypted bytes", l, len(pt))
+		return 0, 0, nil, fmt.Sprintf("inner length %d of %d decrypted bytes", l, len(pt))
 	}
 	if !bytes.Equal(hsSha1(pt[:32+l])[4:20], mk) {
-		return 0, nil, "msg_key is not SHA1(plaintext)[4:20]"
+		return 0, 0, nil, "msg_key is not SHA1(plaintext)[4:20]"
 	}
-	return int64(binary.LittleEndian.Uint64(pt[0:8])), pt[32 : 32+l], ""
+	return int64(binary.LittleEndian.Uint64(pt[0:8])), binary.LittleEndian.Uint64(pt[16:24]), pt[32 : 32+l], ""
 }
 
 // ---- (4) running the real client ---------------------------------------------------------------------
@@ -974,6 +994,18 @@ func hsPanicSite() string {
 // exchange may reach the session store through them.
 var hsAftermath bool
 
+// hsWarnMode: what the application does with the client's Warnings channel (a public field it may set after
+// NewMTProto) while hsExchangeOn runs the exchange:
+//   "" / "nil"   leaves it nil (the default)
+//   "buffered"   a channel with room (what telegram.NewClient makes), read only after the exchange
+//   "unread"     an unbuffered channel nobody receives from until CreateConnection has returned (the application
+//                starts its printing goroutine once it is connected)
+//   "drained"    an unbuffered channel with a goroutine receiving from it all the time
+// In every mode the channel is received from once CreateConnection has returned (or the watchdog has fired).
+var hsWarnMode string
+
+var hsWarnModes = []string{"nil", "buffered", "unread", "drained"}
+
 func hsExchange(d *hsDraws, pub *rsa.PublicKey, secrets *hsSecrets, replies [][]byte, probe bool) *hsRun {
 	return hsExchangeOn("notfound", d, pub, secrets, replies, probe)
 }
@@ -993,6 +1025,27 @@ func hsExchangeOn(storeMode string, d *hsDraws, pub *rsa.PublicKey, secrets *hsS
 		snap := *run.Srv
 		run.Srv = &snap
 		return run
+	}
+	drain := func() {}
+	switch hsWarnMode {
+	case "buffered", "unread", "drained":
+		ch := make(chan error)
+		if hsWarnMode == "buffered" {
+			ch = make(chan error, 100)
+		}
+		m.Warnings = ch
+		var once sync.Once
+		drain = func() {
+			once.Do(func() {
+				go func() {
+					for range ch {
+					}
+				}()
+			})
+		}
+		if hsWarnMode == "drained" {
+			drain()
+		}
 	}
 	// crypto/rand.Int(Reader, 2^2048) reads exactly 256 bytes and takes them as the big-endian value
 	stream := append(append(append([]byte{}, d.Nonce...), d.NewNonce...), d.B...)
@@ -1032,6 +1085,7 @@ func hsExchangeOn(storeMode string, d *hsDraws, pub *rsa.PublicKey, secrets *hsS
 	case <-time.After(hsWatchdog):
 		run.Outcome = "hang"
 	}
+	drain()
 	crand.Reader = old
 	hsRandMu.Unlock()
 	rdr.mu.Lock()
